@@ -3,6 +3,8 @@ package main
 import (
 	"encoding/hex"
 	"fmt"
+	"github.com/jsightapi/jsight-schema-go-library/notations/regex"
+	"github.com/jsightapi/jsight-schema-go-library/rules/enum"
 	"math/rand"
 	"strconv"
 	"sync"
@@ -72,6 +74,55 @@ func concOp(s *js.Schema, sp concSpec, op, di int) string {
 	}
 }
 
+// objects other than JSight schemas that are shared too: a regex type and an enum rule
+const concRegex = "/[a-c]{3}-\\d+x?/"
+const concEnum = "[\n  \"a\", // first\n  2,\n  null\n]"
+
+func regexOp(r *regex.Schema, op int) string {
+	defer func() { recover() }()
+	switch op % 4 {
+	case 0:
+		b, err := r.Example()
+		return "rexample:" + hex.EncodeToString(b) + ":" + errInfo(err)
+	case 1:
+		n, err := r.Len()
+		return fmt.Sprintf("rlen:%d:%s", n, errInfo(err))
+	case 2:
+		return "rcheck:" + errInfo(r.Check())
+	default:
+		p, err := r.Pattern()
+		return "rpattern:" + p + ":" + errInfo(err)
+	}
+}
+
+func enumOp(e *enum.Enum, op int) string {
+	defer func() { recover() }()
+	switch op % 3 {
+	case 0:
+		vs, err := e.Values()
+		return fmt.Sprintf("evalues:%d:%s", len(vs), errInfo(err))
+	case 1:
+		n, err := e.Len()
+		return fmt.Sprintf("elen:%d:%s", n, errInfo(err))
+	default:
+		return "echeck:" + errInfo(e.Check())
+	}
+}
+
+// a private schema that uses the shared regex type and the shared enum rule
+func buildWithShared(r *regex.Schema, e *enum.Enum) string {
+	defer func() { recover() }()
+	s := js.New("root", "{\n  \"code\": \"abc-1\", // {type: \"@rx\"}\n  \"v\": 2 // {enum: @en}\n}")
+	if err := s.AddRule("@en", e); err != nil {
+		return "addrule:" + errInfo(err)
+	}
+	if err := s.AddType("@rx", r); err != nil {
+		return "addtype:" + errInfo(err)
+	}
+	b, err := s.Example()
+	return "check:" + errInfo(s.Check()) + ":validate:" + errInfo(s.Validate(fjson.New("d", `{"code":"bca-77","v":"a"}`))) + ":example:" + hex.EncodeToString(b) + ":" + errInfo(err)
+}
+
 func init() {
 	specials["concrace"] = func(args []string) int {
 		secs, _ := strconv.Atoi(args[0])
@@ -87,6 +138,13 @@ func init() {
 				}
 			}
 		}
+		for op := 0; op < 4; op++ {
+			oracle[fmt.Sprintf("regex/%d", op)] = regexOp(regex.New("rx", concRegex, regex.WithGeneratorSeed(1)), op)
+		}
+		for op := 0; op < 3; op++ {
+			oracle[fmt.Sprintf("enum/%d", op)] = enumOp(enum.New("en", concEnum), op)
+		}
+		oracle["withshared"] = buildWithShared(regex.New("rx", concRegex, regex.WithGeneratorSeed(1)), enum.New("en", concEnum))
 		var bad int32
 		var ops int64
 		deadline := time.Now().Add(time.Duration(secs) * time.Second)
@@ -109,6 +167,8 @@ func init() {
 					shared[si] = buildConc(sp, nil)
 				}
 			}
+			sharedRegex := regex.New("rx", concRegex, regex.WithGeneratorSeed(1))
+			sharedEnum := enum.New("en", concEnum)
 			var wg sync.WaitGroup
 			start := make(chan struct{})
 			for g := 0; g < ng; g++ {
@@ -118,6 +178,27 @@ func init() {
 					rng := rand.New(rand.NewSource(int64(seed)*1000 + int64(round)*64 + int64(g)))
 					<-start
 					for i := 0; i < 40; i++ {
+						if k := rng.Intn(10); k < 3 {
+							// the shared regex type / enum rule objects, directly or through a private schema built from them
+							var got, key string
+							switch k {
+							case 0:
+								o := rng.Intn(4)
+								got, key = regexOp(sharedRegex, o), fmt.Sprintf("regex/%d", o)
+							case 1:
+								o := rng.Intn(3)
+								got, key = enumOp(sharedEnum, o), fmt.Sprintf("enum/%d", o)
+							default:
+								got, key = buildWithShared(sharedRegex, sharedEnum), "withshared"
+							}
+							if got != oracle[key] {
+								if atomic.AddInt32(&bad, 1) <= 5 {
+									fmt.Printf("INCONSISTENT shared object %s: concurrent %q sequential %q\n", key, got, oracle[key])
+								}
+							}
+							atomic.AddInt64(&ops, 1)
+							continue
+						}
 						si := rng.Intn(len(concSpecs))
 						sp := concSpecs[si]
 						op, di := rng.Intn(6), rng.Intn(len(sp.docs))
